@@ -55,6 +55,19 @@ def run(ctx):
         cases.append(c)
         if len(cases) >= (36 if quick else 700):
             break
+    # blocks with >= 64 records: the record COUNT is then a multi-byte varint, so a cut can fall inside it
+    import fastavro as _fa
+    for raw, nrec, codec in [("boolean", 70, "null"), ("null", 200, "deflate"), ({"type": "fixed", "name": "F1", "size": 1}, 64, "null"),
+                             ("int", 8200, "xz") if not quick else ("int", 130, "bzip2")]:
+        named = {}
+        parsed = _fa.parse_schema(raw, named)
+        recs = K.gen_records(rng, parsed, named, nrec)
+        c = dict(raw=raw, parsed=parsed, named=named, records=recs, codec=codec, si=1 << 30, meta=None,
+                 sync=bytes(rng.randrange(256) for _ in range(16)), level=None, use_raw=False)
+        w = c04.impl_write_file(c)
+        if w[0] == "ok":
+            c["data"] = w[1].getvalue()
+            cases.append(c)
     exprs, meta_e = [], []
     ncut = 0
     for c in cases:
